@@ -245,7 +245,33 @@ func marshalPaths(r *evid.Run) {
 			r.Violation("c10|marshal|"+what+"|"+want, fmt.Sprintf("%s = %q (%v), want %q", what, got, err, want), Case{Part: "marshal", Literal: want, Context: what}, nil)
 		}
 	}
+	// accessors of constructed tokens: the JSON number of the token is the literal WriteToken emits for it
+	ctok := func(t jsontext.Token, lit, ctor string) {
+		n++
+		// the JSON number of a constructed token is the Go value it was built from
+		var m string
+		switch ctor {
+		case "Float", "Float32":
+			f, _ := t.Float()
+			if fl, err := strconv.ParseFloat(lit, map[string]int{"Float": 64, "Float32": 32}[ctor]); err != nil || fl != f {
+				m = fmt.Sprintf("Token.Float() = %v, constructed from %s", f, lit)
+				break
+			}
+			rat := new(big.Rat).SetFloat64(f)
+			m = checkTokenVal(t, lit, rat, math.Trunc(f) == f, f, false, math.Signbit(f), func(*big.Int) bool { return false })
+		default:
+			m = checkTokenObj(t, lit)
+		}
+		if m != "" {
+			r.Violation("c10|ctoken|"+ctor+"|"+lit, "constructed with jsontext."+ctor+": "+m, Case{Part: "ctoken", Literal: lit, Context: ctor}, nil)
+		}
+	}
 	var f64s []float64
+	// integral float64 values with more than 17 significant digits, and the int64 / uint64 bounds as floats
+	for k := 50; k <= 66; k++ {
+		p := math.Ldexp(1, k)
+		f64s = append(f64s, p, math.Nextafter(p, 0), math.Nextafter(p, math.Inf(1)), -p, p+math.Ldexp(1, k-30), math.Ldexp(1, k)*1.000000119)
+	}
 	for _, s := range []string{"0", "-0", "1", "1e21", "1e20", "1e-6", "1e-7", "123456789", "0.1", "5e-324", "1.7976931348623157e308", "9007199254740993", "1.5", "-2.5e-10", "100", "123456789012345678901"} {
 		f, _ := strconv.ParseFloat(s, 64)
 		f64s = append(f64s, f)
@@ -274,6 +300,14 @@ func marshalPaths(r *evid.Run) {
 		enc := jsontext.NewEncoder(&bb)
 		err = enc.WriteToken(jsontext.Float(f))
 		chk([]byte(strings.TrimSuffix(bb.String(), "\n")), err, want, "WriteToken(Float)")
+		ctok(jsontext.Float(f), want, "Float")
+		for _, carrier := range []any{[]any{f}, map[string]any{"k": f}, struct{ A any }{f}, []any{[]any{f, "s"}}} {
+			b, err = jsonv2.Marshal(carrier)
+			n++
+			if err != nil || !strings.Contains(string(b), want) || len(b) > len(want)+12 {
+				r.Violation("c10|marshal-untyped|"+want, fmt.Sprintf("Marshal(%T holding float64 %s) = %q (%v): the number is not printed as %s", carrier, want, b, err, want), Case{Part: "marshal", Literal: want, Context: fmt.Sprintf("%T", carrier)}, nil)
+			}
+		}
 		f32 := float32(f)
 		if !math.IsInf(float64(f32), 0) {
 			want32 := string(appendES6(nil, float64(f32), 32))
@@ -285,6 +319,7 @@ func marshalPaths(r *evid.Run) {
 			enc = jsontext.NewEncoder(&bb)
 			err = enc.WriteToken(jsontext.Float32(f32))
 			chk([]byte(strings.TrimSuffix(bb.String(), "\n")), err, want32, "WriteToken(Float32)")
+			ctok(jsontext.Float32(f32), want32, "Float32")
 		}
 	}
 	// integers are printed exactly
@@ -317,6 +352,14 @@ func marshalPaths(r *evid.Run) {
 		enc := jsontext.NewEncoder(&bb)
 		err = enc.WriteToken(jsontext.Int(v))
 		chk([]byte(strings.TrimSuffix(bb.String(), "\n")), err, want, "WriteToken(Int)")
+		ctok(jsontext.Int(v), want, "Int")
+		for _, carrier := range []any{[]any{v}, map[string]any{"k": v}} {
+			b, err = jsonv2.Marshal(carrier)
+			n++
+			if err != nil || !strings.Contains(string(b), want) {
+				r.Violation("c10|marshal-untyped|"+want, fmt.Sprintf("Marshal(%T holding int64 %s) = %q (%v)", carrier, want, b, err), Case{Part: "marshal", Literal: want, Context: fmt.Sprintf("%T", carrier)}, nil)
+			}
+		}
 	}
 	for _, v := range uints {
 		want := strconv.FormatUint(v, 10)
@@ -328,6 +371,7 @@ func marshalPaths(r *evid.Run) {
 		enc := jsontext.NewEncoder(&bb)
 		err = enc.WriteToken(jsontext.Uint(v))
 		chk([]byte(strings.TrimSuffix(bb.String(), "\n")), err, want, "WriteToken(Uint)")
+		ctok(jsontext.Uint(v), want, "Uint")
 	}
 	r.Evaluations.Add(n)
 	r.Nontrivial.Add(n)
@@ -465,16 +509,33 @@ func checkToken(lit string) (msg string) {
 	if err != nil {
 		return fmt.Sprintf("ReadToken(%s): %v", lit, err)
 	}
+	return checkTokenObj(tok, lit)
+}
+
+// checkTokenObj checks the three accessors of a raw number token whose JSON number is lit.
+func checkTokenObj(tok jsontext.Token, lit string) (msg string) {
+	rat, _ := new(big.Rat).SetString(lit)
+	wf, werr := strconv.ParseFloat(lit, 64)
+	return checkTokenVal(tok, lit, rat, isIntGrammar(lit), wf, werr != nil, strings.HasPrefix(lit, "-"), func(got *big.Int) bool { return viaFloat(lit, got) })
+}
+
+// checkTokenVal checks the accessors of a number token (raw or constructed) against the documented semantics:
+// rat is the exact value of the token's JSON number, exact says whether the number is an integer (for a raw token:
+// matches the integer grammar; for a token constructed from a Go float: the float is integral), wf/werr what
+// Float must return, negative whether the number carries a minus sign.
+func checkTokenVal(tok jsontext.Token, lit string, rat *big.Rat, exact bool, wf float64, werr, negative bool, viaF func(*big.Int) bool) (msg string) {
+	defer func() {
+		if p := recover(); p != nil {
+			msg = fmt.Sprintf("library panic: %v", p)
+		}
+	}()
 	// Float
 	f, ferr := tok.Float()
-	wf, werr := strconv.ParseFloat(lit, 64)
-	if (ferr != nil) != (werr != nil) || math.Float64bits(f) != math.Float64bits(wf) || (ferr != nil && !errors.Is(ferr, strconv.ErrRange)) {
-		return fmt.Sprintf("Token(%s).Float() = %v, %v; want %v, %v", lit, f, ferr, wf, werr)
+	if (ferr != nil) != werr || math.Float64bits(f) != math.Float64bits(wf) || (ferr != nil && !errors.Is(ferr, strconv.ErrRange)) {
+		return fmt.Sprintf("Token(%s).Float() = %v, %v; want %v, error=%v", lit, f, ferr, wf, werr)
 	}
 	// exact rational value truncated toward zero
-	rat, _ := new(big.Rat).SetString(lit)
 	trunc := new(big.Int).Quo(rat.Num(), rat.Denom()) // Quo truncates toward zero
-	exact := isIntGrammar(lit)
 	small := new(big.Int).Abs(trunc).Cmp(new(big.Int).Lsh(big.NewInt(1), 53)) < 0
 	// Int
 	i, ierr := tok.Int()
@@ -499,7 +560,7 @@ func checkToken(lit string) (msg string) {
 		if !errors.Is(ierr, strconv.ErrSyntax) {
 			return fmt.Sprintf("Token(%s).Int() error = %v; want ErrSyntax (not an integer literal)", lit, ierr)
 		}
-		if (small || rangeErr) && big.NewInt(i).Cmp(wantI) != 0 && !viaFloat(lit, big.NewInt(i)) {
+		if (small || rangeErr) && big.NewInt(i).Cmp(wantI) != 0 && !viaF(big.NewInt(i)) {
 			return fmt.Sprintf("Token(%s).Int() = %d; want truncated/saturated %v", lit, i, wantI)
 		}
 	}
@@ -513,7 +574,6 @@ func checkToken(lit string) (msg string) {
 	} else if wantU.Cmp(maxU) > 0 {
 		wantU, urange = maxU, true
 	}
-	negative := strings.HasPrefix(lit, "-")
 	switch {
 	case exact && !negative && !urange:
 		if uerr != nil || new(big.Int).SetUint64(u).Cmp(wantU) != 0 {
@@ -527,7 +587,7 @@ func checkToken(lit string) (msg string) {
 		if !errors.Is(uerr, strconv.ErrSyntax) {
 			return fmt.Sprintf("Token(%s).Uint() error = %v; want ErrSyntax", lit, uerr)
 		}
-		if (small || urange || negative) && new(big.Int).SetUint64(u).Cmp(wantU) != 0 && !(wantU.Sign() > 0 && viaFloat(lit, new(big.Int).SetUint64(u))) {
+		if (small || urange || negative) && new(big.Int).SetUint64(u).Cmp(wantU) != 0 && !(wantU.Sign() > 0 && viaF(new(big.Int).SetUint64(u))) {
 			return fmt.Sprintf("Token(%s).Uint() = %d; want truncated/saturated %v", lit, u, wantU)
 		}
 	}
